@@ -666,6 +666,26 @@ func genRegLayers(r *emit.Rng, max int) []layer {
 	return ls
 }
 
+// genDeepLayers: 3-5 nested wrappers that do not clash with each other (distinct added labels)
+func genDeepLayers(r *emit.Rng) []layer {
+	n := 3 + r.Intn(3)
+	ls := make([]layer, n)
+	free := []string{"z", "c", "y", "w"}
+	for i := range ls {
+		switch {
+		case r.Chance(2, 5) || len(free) == 0:
+			ls[i] = layer{isPrefix: true, prefix: regPrefix[r.Intn(len(regPrefix))]}
+		case r.Chance(1, 5):
+			ls[i] = layer{labels: prometheus.Labels{}}
+		default:
+			k := r.Intn(len(free))
+			ls[i] = layer{labels: prometheus.Labels{free[k]: lvPool[r.Intn(len(lvPool))]}}
+			free = append(free[:k:k], free[k+1:]...)
+		}
+	}
+	return ls
+}
+
 func regStream(c *cli.Ctx, r *emit.Rng, n int) error {
 	w := emit.NewWriter(c.Out, "C13", "reg")
 	time.Sleep(5 * time.Millisecond)
@@ -696,13 +716,90 @@ func regStream(c *cli.Ctx, r *emit.Rng, n int) error {
 		}
 		var registered []done
 		rejected, accepted := 0, 0
-		for o := 3 + r.Intn(6); o > 0; o-- {
+		var pending []done // registrations replayed one by one after a MustRegister batch
+		for o := 3 + r.Intn(6); o > 0 || len(pending) > 0; o-- {
 			ci := r.Intn(nc)
 			ls := genRegLayers(r, 2)
+			if r.Chance(1, 5) {
+				ls = genDeepLayers(r)
+			}
 			isUnreg := r.Chance(1, 4)
 			if isUnreg && len(registered) > 0 && r.Chance(3, 4) { // unregister through the same wrapper
 				d := registered[r.Intn(len(registered))]
 				ci, ls = d.ci, d.ls
+			} else if !isUnreg && len(registered) > 0 && r.Chance(1, 4) { // register an equal collector again
+				d := registered[r.Intn(len(registered))]
+				ci, ls = d.ci, d.ls
+			}
+			forced := false
+			if len(pending) > 0 {
+				ci, ls, isUnreg, forced = pending[0].ci, pending[0].ls, false, true
+				pending = pending[1:]
+			}
+			if !forced && !isUnreg && r.Chance(1, 6) {
+				// MustRegister(c1..cn) through a wrapping Registerer: sequential, panics with the first error
+				if len(ls) == 0 {
+					ls = []layer{{isPrefix: true, prefix: "p_"}}
+				}
+				cis := make([]int, 2+r.Intn(3))
+				var wcs, ncs []prometheus.Collector
+				okBatch := true
+				for k := range cis {
+					cis[k] = r.Intn(nc)
+					ne, has := nativeEquivalent(colls[cis[k]], ls)
+					if !has || wrapPanics(colls[cis[k]].descs, ls) {
+						okBatch = false
+					}
+					wcs = append(wcs, colls[cis[k]].c)
+					ncs = append(ncs, ne)
+				}
+				if okBatch {
+					must := func(rg prometheus.Registerer, cs []prometheus.Collector) (kind int, ex prometheus.Collector) {
+						defer func() {
+							if v := recover(); v != nil {
+								err, isErr := v.(error)
+								if !isErr {
+									kind = 7
+									return
+								}
+								kind = regKind(err)
+								var are prometheus.AlreadyRegisteredError
+								if errors.As(err, &are) {
+									ex = are.ExistingCollector
+								}
+							}
+						}()
+						rg.MustRegister(cs...)
+						return 0, nil
+					}
+					wk, ex := must(wrapRegisterer(reg, ls), wcs)
+					nk, _ := must(nat, ncs)
+					exi := -1
+					if wk == 4 {
+						exi = -2
+						for j := range colls {
+							if ex == colls[j].c {
+								exi = j
+							}
+						}
+					}
+					cit2 := make([]string, len(cis))
+					for k, x := range cis {
+						cit2[k] = emit.I(x)
+						pending = append(pending, done{x, ls}) // then every member once more, one by one
+					}
+					ops = append(ops, emit.C(2, emit.L(cit2), emLayers(ls)))
+					res = append(res, emit.Tup(emit.I(wk), emit.I(exi), emit.I(nk)))
+					tags = append(tags, fmt.Sprintf("reg:mustregister=%d", wk), fmt.Sprintf("reg:layers=%d", len(ls)))
+					if wk != 0 {
+						rejected++
+					}
+					if !settled(baseGoroutines) {
+						direct = fmt.Sprintf("after MustRegister (result kind %d) through %d wrapper(s): goroutines left behind", wk, len(ls))
+						break
+					}
+					continue
+				}
 			}
 			viaRegisterer := r.Bool()
 			ne, hasNative := nativeEquivalent(colls[ci], ls)
